@@ -30,10 +30,21 @@ def main():
     try:
         return mod.run(tier)
     except Exception:
-        traceback.print_exc()
-        # the machinery itself failed: that is not a statement about the property
-        print("CHECK-ERROR property=%s (internal error of the check, see traceback)" % pid)
-        return 3
+        tb = traceback.format_exc()
+        sys.stderr.write(tb)
+        # the machinery itself failed on this tree: the property is not shown to hold, and no failing input was found.
+        # (On the unchanged tree this is a defect of the check; on a changed tree it is how a change that the harness cannot
+        # digest - an artefact it can no longer read, an interface that moved - surfaces instead of passing silently.)
+        import hashlib
+        import json
+        os.makedirs(os.path.join(vlib.ROOT, "replay"), exist_ok=True)
+        path = os.path.join(vlib.ROOT, "replay", "%s-checkerror-%s.json" % (pid, hashlib.sha256(tb.encode()).hexdigest()[:10]))
+        with open(path, "w") as f:
+            json.dump({"property": pid, "what": "the check could not be carried out (internal error); the property is not shown to hold",
+                       "no_failing_input_found": True, "traceback": tb[-6000:]}, f, indent=1)
+        print("CHECK-ERROR property=%s (internal error of the check, see %s)" % (pid, path))
+        print("VIOLATION property=%s replay=%s no-failing-input-found" % (pid, path))
+        return 1
 
 
 if __name__ == "__main__":
